@@ -64,6 +64,7 @@ PURE_METHODS = NOISE_METHODS | {
 }
 
 
+_PURE_LABEL = re.compile(r"\bself\b|\bitem\b|φ|loop\(|\.(take|pop|pop_front|pop_back|next|get|borrow|eat|peek|read|recv|insert|remove|push)\(|\b[a-z_]+\([^)]*\)\.")
 OPTION_METHODS = {"ok_or", "ok_or_else", "is_some", "is_none", "is_ok", "is_err", "unwrap_or", "unwrap_or_else", "unwrap_or_default", "map_or", "map_or_else", "is_some_and", "is_ok_and", "is_none_or", "map", "and_then"}
 # name -> 'Option' | 'Result' for the crates' own functions whose declared return type is one (set by lib.ast.Ast)
 RET_FAMILY = {}
@@ -291,6 +292,11 @@ class Run:
         if self.no_choice:
             raise NeedChoice(kind, label, options)
         if kind == "guard":
+            if _PURE_LABEL.search(label) is None:
+                # a test of the parameters / locals only: asked again on the same path it has the same answer
+                for c in self.choices:
+                    if c[0] == "guard" and c[1] == label:
+                        return [o[1] for o in options if o[0] == c[2]][0]
             k = sum(1 for c in self.choices if c[0] == "guard" and (c[1] == label or c[1].startswith(label + "#")))
             if k:
                 label = "%s#%d" % (label, k + 1)
@@ -706,14 +712,37 @@ class Run:
                     continue
                 r = True
             if r is None:
-                # undecidable pattern: fork "this arm's pattern matches" / "does not" (once per distinct pattern)
-                pt = self.showpat(arm["pat"])
-                # `None` is the complement of `Some(_)`, `Err(_)` of `Ok(_)`: one canonical guard for both spellings
-                comp = {"None": "Some(_)", "Err(_)": "Ok(_)"}.get(pt)
-                lab = "%s matches %s" % (showv(v), comp or pt)
-                if lab not in decided:
-                    decided[lab] = self.choose("guard", lab, [("true", True), ("false", False)])
-                if decided[lab] == bool(comp):
+                # undecidable pattern: fork "this arm's pattern matches" / "does not" (once per distinct pattern); a tuple of
+                # scrutinees against a tuple pattern is decided component by component, like the nested matches it stands for
+                def decide(pat, val):
+                    while pat.get("k") == "PRef":
+                        pat = pat["pat"]
+                    if pat.get("k") == "PTuple" and isinstance(val, tuple) and val and val[0] == "tuple" and len(val[1]) == len(pat["elems"]):
+                        for p_i, v_i in zip(pat["elems"], val[1]):
+                            r_i = self.match(p_i, v_i, env2)
+                            if r_i is False or (r_i is None and not decide(p_i, v_i)):
+                                return False
+                        return True
+                    if pat.get("k") == "PTupleStruct" and isinstance(val, tuple) and val and val[0] == "ctor" and val[1] == pat["path"].split("::")[-1] \
+                            and len(val[2]) == len(pat["elems"]) and not any(x.get("k") == "PRest" for x in pat["elems"]):
+                        for p_i, v_i in zip(pat["elems"], val[2]):
+                            r_i = self.match(p_i, v_i, env2)
+                            if r_i is False or (r_i is None and not decide(p_i, v_i)):
+                                return False
+                        return True
+                    if pat.get("k") == "PLit" and isinstance(self.lit(pat["lit"]), bool) and is_unk(val):
+                        key = "truth:" + showv(val)
+                        if key not in decided:
+                            decided[key] = self.truth(val, None)
+                        return decided[key] == self.lit(pat["lit"])
+                    pt = self.showpat(pat)
+                    # `None` is the complement of `Some(_)`, `Err(_)` of `Ok(_)`: one canonical guard for both spellings
+                    comp = {"None": "Some(_)", "Err(_)": "Ok(_)"}.get(pt)
+                    lab = "%s matches %s" % (showv(val), comp or pt)
+                    if lab not in decided:
+                        decided[lab] = self.choose("guard", lab, [("true", True), ("false", False)])
+                    return decided[lab] != bool(comp)
+                if not decide(arm["pat"], v):
                     continue
             if arm.get("guard") is not None:
                 g = self.eval(arm["guard"], env2)
